@@ -161,3 +161,42 @@ package pod_info
 // slices handed around by the allocate path are not rewritten in place
 //@ stable PodInfo.ResourceRequestType
 //@ stable slicetype []*PodInfo
+
+// ---- added by helper "cache" ----
+// Snapshot construction of a task (C12 C10 C14).
+
+//@ func (k8s.io/apimachinery/pkg/types.NamespacedName).String
+//@   props C12 C10
+//@   trusted
+//@   note external (k8s.io/apimachinery/pkg/types): returns Namespace + "/" + Name; assumed read-only
+//@   pure
+//@ end
+
+// the pod-group annotation of the pod ("" when absent or empty)
+//@ define podGroupOf(pod *v1.Pod) string = ite(commonconstants.PodGroupAnnotationForPod in pod.Annotations && len(pod.Annotations[commonconstants.PodGroupAnnotationForPod]) != 0, pod.Annotations[commonconstants.PodGroupAnnotationForPod], "")
+
+//@ func getPodGroupID
+//@   props C10 C14
+//@   requires pod != nil
+//@   pure
+//@   ensures result == podGroupOf(pod)
+//@ end
+
+// DRA claims of the pod as the snapshot sees them: a new map with new entries; nothing that existed before is written.
+//@ func resourceClaimInfoFromPodClaims
+//@   props C10 C12
+//@   requires pod != nil
+//@   requires bindRequest != nil ==> bindRequest.BindRequest != nil
+//@   loop 1
+//@     invariant 0 - 1 <= rangeindex && rangeindex < len(bindRequest.BindRequest.Spec.ResourceClaimAllocations)
+//@     invariant bindingRequestClaimUpdates != nil && fresh(bindingRequestClaimUpdates)
+//@     invariant resourceClaimInfo != nil && fresh(resourceClaimInfo)
+//@     invariant forall k in bindingRequestClaimUpdates :: bindingRequestClaimUpdates[k] != nil && fresh(bindingRequestClaimUpdates[k])
+//@   loop 2
+//@     invariant 0 - 1 <= rangeindex && rangeindex < len(pod.Spec.ResourceClaims)
+//@     invariant resourceClaimInfo != nil && fresh(resourceClaimInfo)
+//@     invariant forall k in bindingRequestClaimUpdates :: bindingRequestClaimUpdates[k] != nil && fresh(bindingRequestClaimUpdates[k])
+//@     invariant forall k in resourceClaimInfo :: resourceClaimInfo[k] != nil && fresh(resourceClaimInfo[k])
+//@   ensures [newMap] result0 != nil && fresh(result0)
+//@   ensures [newEntries] forall k in result0 :: result0[k] != nil && fresh(result0[k])
+//@ end
